@@ -358,17 +358,23 @@ PROPS = {
                  "division by (X - z) (lengths 0-6, closed-form quotient + LEMMA q(X)(X-z) + p(z) == p(X)); Polynomial::evaluate == sum p_i v^i "
                  "(lengths 0-6); &a + &b, &a - &b, a += &b, a -= &b, a += (f, &b) equal a(X) +/- f b(X) as polynomials in X and return a "
                  "normalised result (all length pairs 0-3 x 0-3, arbitrary - also non-normalised - inputs); util::powers_of(x, d) == "
-                 "[x^0..x^d] for ALL d (Verus loop invariant).",
+                 "[x^0..x^d] for ALL d (Verus loop invariant); FFT: serial_fft(a, w, log n) == DFT_w(a) for n = 1..32 with w a SYMBOL subject "
+                 "only to w^(n/2) == -1 (so the result holds for every primitive n-th root), best_fft == serial_fft below the parallel "
+                 "threshold, EvaluationDomain::{fft, ifft, coset_fft, coset_ifft} for n = 1,2,4,8 and input lengths 0, 1, n-1, n, n+1 "
+                 "(zero padding; longer inputs are cut to the domain), LEMMA fft_round_trip (the four contract formulas are mutually inverse), "
+                 "butterfly_chunk and parallel_butterfly_chunk == the radix-2 butterfly for thread counts 1,3,4,5,16,17 as an instance "
+                 "parameter (m up to 512).",
         "technique": "contract-based deductive verification: ring/trace contract checker on the real function bodies, instance by instance "
                      "(bounded in the vector length only) + Verus (powers_of, unbounded)",
-        "level_note": "BOUNDED in length: each instance is exact for all element values but covers only the stated lengths. NOT decided: "
-                      "FFT / IFFT / coset variants against the DFT (not built yet), the rayon paths and thread-count independence, FFT-based "
-                      "polynomial multiplication, Lagrange / barycentric closed forms.",
+        "level_note": "BOUNDED in length / domain size: each instance is exact for all element values but covers only the stated sizes. "
+                      "rayon is modelled sequentially under a stated assumption (disjoint chunks, every item visited once), with the thread "
+                      "count as a parameter; real schedules are not explored. NOT decided: best_fft's parallel stage selection for n >= 2^12, "
+                      "FFT-based polynomial multiplication, Lagrange / barycentric / vanishing closed forms.",
         "design_ref": "DESIGN.md §4 C19, §9",
         "assumptions": A_RING + A_VERUS + ["field inverse as an uninterpreted symbol inv(p); results stated in product form (inv(T) * cofactor), "
                                           "which equals 1/v_i because inv(T) * T == 1 in a field"],
         "trusted": T_RING + T_VERUS,
-        "not_covered": ["FFT kernels, rayon schedules, polynomial multiplication, Lagrange/barycentric evaluations, lengths beyond the instances"],
+        "not_covered": ["rayon schedules, n >= 2^12 stage selection, polynomial multiplication, Lagrange/barycentric evaluations, sizes beyond the instances"],
     },
     "C15": {
         "v_units": ["capacity.py", "compress.py"],
